@@ -418,7 +418,7 @@ def main():
         "objective functions are deterministic; PenalizingEvaluator re-evaluations average identical values",
         "NSGA3Indicator / MOEAD / RVEA are exercised with mu >= number of objectives only: sampleLatticeUniformly(keep_corners) writes all corner rows into an n-row matrix (heap overflow for n < #objectives, seen under ASan); reported to the lead, not part of the stream",
         "tournament-based optimisers (SMS-EMOA, NSGA-II/III, RVEA) need mu > tournament size 2 (library exception otherwise)",
-        "HypervolumeIndicator without reference point inside the optimisers: smallest(front,k) is rejected by a library exception when the split front has fewer than k non-extreme points (after the fix of F8); such runs are listed in notes.default_configuration_runs_rejected_by_exception"]
+        "HypervolumeIndicator without reference point inside the optimisers: when the split front has fewer than k non-extreme points the extreme points are discarded last (since /repo commit 1a2ef572; before, the request was answered with garbage resp. rejected)"]
     ck.proofs()
     model = extract_model(PID, "C14Extract.v", "c14_driver.ml")
     exe, err = cxx_build("c14_select", [os.path.join(ROOT, "harness", "c14_select.cpp")] + repo_src(*SRC))
@@ -525,6 +525,24 @@ def main():
                     ck.violation(key, {"case_file": cf, "case": case, "monitor": bad[:5], "replay_cmd": "python3 tools/c14.py --replay " + cf},
                                  "spec monitor fails on the implementation: %s: %s" % (case, bad[0]))
         ck.oblige("per-generation monitors (size, value = objective at closest feasible point, box, hypervolume monotone) on %d optimizer runs" % len(o_lines), om == 0)
+        # object history: an optimizer object that completed an earlier run and is initialised again must repeat the run of a
+        # fresh object with the same seed, generation by generation
+        base = {c: (hdr, gens, status) for (c, hdr, gens, status) in res}
+        sel = [c for c in o_lines if not base[c][2].startswith("CRASH") and len(c.split()) == 10][: (60 if big else 18)]
+        re_cases = [c + " %d" % (3 + i % 5) for i, c in enumerate(sel)]
+        rbad = 0
+        for c0, (c, hdr, gens, status) in zip(sel, run_O(ck, re_cases, moo, tmpd, label="OR")):
+            h0, g0, s0 = base[c0]
+            if (hdr, gens, status) != (h0, g0, s0):
+                rbad += 1
+                if rbad <= 2:
+                    k = next((i for i, (x, y) in enumerate(zip(gens, g0)) if x != y), min(len(gens), len(g0)))
+                    cf = ck.write_replay("OR_case_%d.txt" % rbad, c0 + "\n" + c + "\n")
+                    ck.violation("optimizer:%s:reinit-determinism" % c.split()[1], {"case_file": cf, "case": [c0, c], "first_differing_generation": k, "status": [s0, status],
+                                                                                   "replay_cmd": "build/bin/std/c14_moo " + cf},
+                                 "optimizer %s: an object that completed an earlier run and was initialised again does not repeat the run of a fresh object with the same seed (`%s`: first difference at generation %d, status %s vs %s)" % (c.split()[1], c, k, s0[:40], status[:40]))
+        ck.oblige("re-initialised optimizer objects repeat the run of fresh objects on %d runs" % len(re_cases), rbad == 0)
+        gens_total += sum(len(g) for (_, _, g, _) in [(0, 0, base[c][1], 0) for c in sel])
 
     ck.cov["evaluations"] = len(s_lines) + len(f8_lines) + len(p_lines) + gens_total
     ck.cov["distinct_nontrivial"] = len(set(l for l, o in zip(s_lines, outs) if "K=" in o and int(kv(o)["K"]) > 0)) + len(set(o_lines))
